@@ -320,6 +320,9 @@ func (w *wrappedSink) processEntities(runner *Runner, entities []*server.Entity)
 			}
 			if !errors.Is(err, MaxItemsExceededError) {
 				w.lastError = err
+				// a batch of one entity is not split: count it as well, so that the batches accepted
+				// after it do not unset the error of this run
+				w.recursionDepth++
 			}
 			return nil
 		} else {
